@@ -103,19 +103,22 @@ void Flow::process_packet(PDU& pdu) {
     if (!tcp || !raw) {
         return;
     }
-    const uint32_t chunk_end = tcp->seq() + raw->payload_size();
+    // The SYN flag occupies one sequence number: the payload of a SYN segment
+    // (TCP Fast Open) starts right after it
+    const uint32_t payload_seq = tcp->seq() + (tcp->has_flags(TCP::SYN) ? 1 : 0);
+    const uint32_t chunk_end = payload_seq + raw->payload_size();
     const uint32_t current_seq = data_tracker_.sequence_number();
     // If the end of the chunk ends before the current sequence number or
     // if we're going to buffer this and we have a buffering callback, execute it
     if (seq_compare(chunk_end, current_seq) < 0 ||
-            seq_compare(tcp->seq(), current_seq) > 0){
+            seq_compare(payload_seq, current_seq) > 0){
         if (on_out_of_order_callback_) {
-            on_out_of_order_callback_(*this, tcp->seq(), raw->payload());
+            on_out_of_order_callback_(*this, payload_seq, raw->payload());
         }
     }
 
     // can process either way, since it will abort immediately if not needed
-    if (data_tracker_.process_payload(tcp->seq(), std::move(raw->payload()))) {
+    if (data_tracker_.process_payload(payload_seq, std::move(raw->payload()))) {
         if (on_data_callback_) {
             on_data_callback_(*this);
         }
